@@ -537,9 +537,10 @@ def main():
         assumptions=["model faithfulness beyond the explored inputs", "rustc semantics of primitive operations", "see DESIGN.md §6"],
         wall_s=round(time.time() - t0, 2), violations=len(violations),
     )
-    os.makedirs(os.path.join(ROOT, "evidence"), exist_ok=True)
-    with open(os.path.join(ROOT, "evidence", pid + ".json"), "w") as f:
-        json.dump(ev, f, indent=1)
+    if os.environ.get("VERIF_DEV_SKIP_PROOF") != "1":      # a development run without the proof leaves no record
+        os.makedirs(os.path.join(ROOT, "evidence"), exist_ok=True)
+        with open(os.path.join(ROOT, "evidence", pid + ".json"), "w") as f:
+            json.dump(ev, f, indent=1)
 
     for kid, wit in sorted(known_hits.items()):
         log("KNOWN-FINDING: property=%s %s %s" % (pid, kid, wit))
